@@ -181,8 +181,8 @@ func (s *Swarm) onPeerOffline(name mesh.PeerName) {
 		// Range over all of the subscriptions we have
 		dead := &deadPeer{name: name}
 		s.state.SubscriptionsOf(name, func(ev *event.Subscription) {
+			s.state.Del(ev)           // Remove the state from ourselves (first, the notification alters the event)
 			s.OnUnsubscribe(dead, ev) // Notify locally that the subscription is gone
-			s.state.Del(ev)           // Remove the state from ourselves
 		})
 
 		// If we're a fallback server, issue last will events
